@@ -394,6 +394,7 @@ def check_deterministic(ctx, R="C18.deterministic"):
 
 
 RUNTIME_MODULE_PREFIXES = ("scenic.core.dynamics", "scenic.core.simulators")
+NOT_DRAWS = {"getstate", "setstate", "get_state", "set_state", "default_rng", "seed", "Random", "RandomState", "Generator"}
 RUNTIME_RNG_OK = {}  # qualname -> reason (none on the current tree)
 
 
@@ -411,6 +412,8 @@ def check_recorded(ctx, R="C18.recorded"):
     def rng_target(mod, c):
         r = model.resolve_expr(mod, c.func)
         if isinstance(r, tuple) and r[0] == "ext" and (r[1].startswith(("random.", "numpy.random.")) or r[1] in ("random", "numpy.random")):
+            if r[1].rsplit(".", 1)[-1] in NOT_DRAWS:
+                return None  # reading or restoring the generator state draws nothing (that is C19.rewind's question)
             return r[1]
         return None
 
